@@ -242,14 +242,28 @@ func c14TextRememberedId(quick bool) C14Group {
 						msg = fmt.Sprintf("engine: text %v did not take the key (reply %v)", lock, r0)
 						return
 					}
+					// a command may take a while to be answered (SETNX on an existing key waits for the connection's default
+					// timeout of 15 s): the next one is only sent after its reply
+					await := func() []string {
+						r := tc.TakeText()
+						for w := 0; len(r) == 0 && w < 200; w++ {
+							vrt.AdvanceTo(vrt.Elapsed() + 100*ms)
+							tc.Pump()
+							r = tc.TakeText()
+						}
+						return r
+					}
 					for _, kv := range [][]string{kv1, kv2} {
 						if kv != nil {
 							_ = tc.Send(wire.Resp(kv...))
-							tc.TakeText()
+							if len(await()) == 0 {
+								msg = fmt.Sprintf("engine: %v was not answered within 20 s", kv)
+								return
+							}
 						}
 					}
 					_ = tc.Send(wire.Resp("UNLOCK", "a"))
-					r := tc.TakeText()
+					r := await()
 					if ks := node.Snapshot().Key(0, ka); ks != nil && len(ks.Holds) != 0 {
 						msg = fmt.Sprintf("connection history %v, %v, %v, UNLOCK a (no LOCK_ID): the lock taken by this connection's last LOCK is still held (reply %v); the binary UNLOCK with that id releases it", lock, kv1, kv2, r)
 					}
